@@ -403,7 +403,10 @@ type stdEnv struct {
 	bytes [][]byte
 }
 
-func newStdEnv() *stdEnv { return &stdEnv{strs: map[string]bool{}} }
+func newStdEnv() *stdEnv {
+	// the zero time and the empty byte string are what unset fields hold
+	return &stdEnv{strs: map[string]bool{}, times: []time.Time{{}}, bytes: [][]byte{{}}}
+}
 
 func (e *stdEnv) addTree(n *jnode) {
 	if n != nil {
